@@ -232,6 +232,15 @@ class Node:
             s |= c.kinds()
         return s
 
+    def features(self) -> set[str]:
+        """input-class features used in violation signatures"""
+        f = set(getattr(self, "_features", ()))
+        if self.kind in ("vmap", "scan", "repeat") and getattr(self, "n", 1) == 0:
+            f.add("zero_length")
+        for c in self.children():
+            f |= c.features()
+        return f
+
     def __repr__(self):
         return self.name
 
@@ -1055,13 +1064,20 @@ def wrap(raw: Node, variant: int = 0) -> Static:
     else:
         raise ValueError(f"cannot wrap {k}")
 
-    return Static(
+    w = Static(
         f"wrap{variant}({raw.name})",
         1,
         [Site("s", raw, argfn)],
         lambda xp, args, env: num(xp, env["s"]),
         [(t,) for t in THETAS],
     )
+    if k == "mask" and variant == 2:
+        w._features = ("mask_concrete_false",)
+    if k == "mask" and variant == 1:
+        w._features = ("mask_concrete_true",)
+    if k == "switch" and variant == 1:
+        w._features = ("switch_concrete_idx",)
+    return w
 
 
 # --------------------------------------------------------------------------------------------
